@@ -177,6 +177,13 @@ class World:
         frame, kw = lifecat.build(fam, kind, name, obs, ghi=ghi, supp=supp)
         if entry == "dtcol":            # timestamps handed over as a `datetime` column instead of the index
             frame = frame.rename_axis("datetime").reset_index()
+        elif entry == "naive":          # malformed on purpose: the constructor must refuse it - and leave the caller's frame as it was
+            frame = frame.copy()
+            frame.index = frame.index.tz_localize(None)
+        elif entry == "notemp":
+            frame = frame.drop(columns="temperature")
+        elif entry == "shuffled":       # rows in another order (well formed: the index is what it is)
+            frame = frame.sample(frac=1.0, random_state=3)
         self.ext[d] = frame
         before = hash_frame(frame)
         cls = getattr(em(), FAMS[fam][1 if kind == "baseline" else 2])
